@@ -199,7 +199,7 @@ namespace detail
 		T real_part = norm_u_norm_v + dot(u, v);
 		vec<3, T, Q> t;
 
-		if(real_part < static_cast<T>(1.e-6f) * norm_u_norm_v)
+		if(real_part < static_cast<T>(8) * std::numeric_limits<T>::epsilon() * norm_u_norm_v)
 		{
 			// If u and v are exactly opposite, rotate 180 degrees
 			// around an arbitrary orthogonal axis. Axis normalisation
